@@ -68,7 +68,7 @@ func (a *refACL) allows(principal, action, resource, name string) bool {
 	return a.defaultAllow
 }
 
-var aclPrincipals = []string{"nobody", "reader", "writer", "grp", "admin", "all", "stranger"}
+var aclPrincipals = []string{"nobody", "reader", "writer", "grp", "admin", "all", "stranger", "gadmin"}
 
 // w1BuildACL derives the ACL configuration of a run: the same rules go to the
 // real authorizer and to the reference model.
@@ -98,6 +98,7 @@ func w1BuildACL(w *w1) *acl.Authorizer {
 	add("writer", []refRule{{"produce", "topic", "t0"}}, []refRule{{"fetch", "topic", "*"}, {"admin", "cluster", "*"}, {"group_write", "group", "*"}, {"group_read", "group", "*"}, {"group_admin", "group", "*"}, {"produce", "topic", "t1"}})
 	add("grp", []refRule{{"group_write", "group", "g0"}, {"group_read", "group", "g0"}}, []refRule{{"*", "topic", "*"}, {"admin", "cluster", "*"}, {"group_admin", "group", "*"}, {"*", "group", "g1"}})
 	add("admin", []refRule{{"admin", "cluster", "*"}}, []refRule{{"*", "topic", "*"}, {"*", "group", "*"}})
+	add("gadmin", []refRule{{"group_admin", "group", "g0"}, {"group_read", "group", "g0"}}, []refRule{{"*", "topic", "*"}, {"admin", "cluster", "*"}, {"*", "group", "g1"}})
 	add("all", []refRule{{"*", "*", "*"}}, nil)
 	// "stranger" is not configured: it gets the default policy
 	w.refACL = ref
@@ -128,6 +129,7 @@ func (w *w1) opACL(client int, op simrt.Op) {
 		return
 	}
 	task := ""
+	mixed := false // several items in one request: effects are judged per denied item
 	var req kmsg.Request
 	var items func(kmsg.Response) []aclItem
 	one := func(action, resource, name string, code int16, leaked string) []aclItem {
@@ -405,6 +407,71 @@ func (w *w1) opACL(client int, op simrt.Op) {
 			}
 			return one("group_admin", "group", group, p.Groups[0].ErrorCode, "")
 		}
+	case "delete-groups-mixed":
+		// one request naming both groups: a principal may hold the permission for one of them only
+		mixed = true
+		r := kmsg.NewPtrDeleteGroupsRequest()
+		r.Version, r.Groups = 2, []string{"g0", "g1"}
+		if op.D%2 == 1 {
+			r.Groups = []string{"g1", "g0"}
+		}
+		req = r
+		items = func(resp kmsg.Response) []aclItem {
+			var out []aclItem
+			for _, g := range resp.(*kmsg.DeleteGroupsResponse).Groups {
+				out = append(out, aclItem{"group_admin", "group", g.Group, g.ErrorCode, ""})
+			}
+			return out
+		}
+	case "produce-mixed":
+		mixed = true
+		r := kmsg.NewPtrProduceRequest()
+		r.Version, r.Acks, r.TimeoutMillis = 9, 1, 1000
+		for _, tn := range []string{"t0", "t1"} {
+			sent, _ := w.buildBatch(900+client, int(op.D), 1, 8)
+			rt := kmsg.NewProduceRequestTopic()
+			rt.Topic = tn
+			rp := kmsg.NewProduceRequestTopicPartition()
+			rp.Records = sent
+			rt.Partitions = append(rt.Partitions, rp)
+			r.Topics = append(r.Topics, rt)
+		}
+		req = r
+		items = func(resp kmsg.Response) []aclItem {
+			var out []aclItem
+			for _, t := range resp.(*kmsg.ProduceResponse).Topics {
+				for _, p := range t.Partitions {
+					out = append(out, aclItem{"produce", "topic", t.Topic, p.ErrorCode, ""})
+				}
+			}
+			return out
+		}
+	case "fetch-mixed":
+		mixed = true
+		r := kmsg.NewPtrFetchRequest()
+		r.Version, r.ReplicaID, r.MaxBytes = 12, -1, 1<<20
+		for _, tn := range []string{"t1", "t0"} {
+			rt := kmsg.NewFetchRequestTopic()
+			rt.Topic = tn
+			rp := kmsg.NewFetchRequestTopicPartition()
+			rp.PartitionMaxBytes, rp.CurrentLeaderEpoch = 1<<20, -1
+			rt.Partitions = append(rt.Partitions, rp)
+			r.Topics = append(r.Topics, rt)
+		}
+		req = r
+		items = func(resp kmsg.Response) []aclItem {
+			var out []aclItem
+			for _, t := range resp.(*kmsg.FetchResponse).Topics {
+				for _, p := range t.Partitions {
+					leak := ""
+					if len(p.RecordBatches) > 0 {
+						leak = fmt.Sprintf("%d bytes of record data", len(p.RecordBatches))
+					}
+					out = append(out, aclItem{"fetch", "topic", t.Topic, p.ErrorCode, leak})
+				}
+			}
+			return out
+		}
 	default:
 		return
 	}
@@ -425,6 +492,21 @@ func (w *w1) opACL(client int, op simrt.Op) {
 			}
 			denied = true
 			w.sim.Probe("c24.denied-item")
+			if mixed {
+				w.sim.Probe("c24.denied-item-in-mixed-request")
+				for _, wr := range w.store.Writes()[storeBefore:] {
+					if (wr.Task == task || strings.HasPrefix(wr.Task, task+"/")) && !wr.Err && (wr.Key == it.name || strings.HasPrefix(wr.Key, it.name+"/")) {
+						w.sim.Fail("C24", "mutation-by-unauthorized-request", "%s by %q lacks %s on %s %q, yet the request performed %s(%s) on the metadata store", op.S, principal, it.action, it.resource, it.name, wr.Method, wr.Key)
+						return
+					}
+				}
+				for _, wr := range w.s3.Log[s3Before:] {
+					if (wr.Task == task || strings.HasPrefix(wr.Task, task+"/")) && strings.Contains(wr.Key, "/"+it.name+"/") {
+						w.sim.Fail("C24", "s3-write-by-unauthorized-request", "%s by %q lacks %s on %s %q, yet the request wrote %s", op.S, principal, it.action, it.resource, it.name, wr.Key)
+						return
+					}
+				}
+			}
 			if !authCode(it.code) {
 				w.sim.Fail("C24", "no-authorization-error", "%s by %q lacks %s on %s %q but the reply carries code %d", op.S, principal, it.action, it.resource, it.name, it.code)
 				return
@@ -435,7 +517,7 @@ func (w *w1) opACL(client int, op simrt.Op) {
 			}
 		}
 		noPerm := op.S == "metadata" && !w.refACL.allows(principal, "produce", "topic", topic) && !w.refACL.allows(principal, "fetch", "topic", topic) && !w.refACL.allows(principal, "admin", "cluster", "cluster")
-		if denied || noPerm {
+		if (denied && !mixed) || noPerm {
 			for _, wr := range w.store.Writes()[storeBefore:] {
 				if wr.Task == task || strings.HasPrefix(wr.Task, task+"/") {
 					if wr.Err {
@@ -478,7 +560,8 @@ func (w *w1) stepCreatedBy(task string, from int) bool {
 }
 
 var aclKinds = []string{"produce", "fetch", "fetch-id", "listoffsets", "metadata", "create-topics", "delete-topics", "create-partitions", "alter-configs", "describe-configs",
-	"join", "sync", "heartbeat", "leave", "commit", "offset-fetch", "describe-groups", "list-groups", "delete-groups"}
+	"join", "sync", "heartbeat", "leave", "commit", "offset-fetch", "describe-groups", "list-groups", "delete-groups",
+	"delete-groups-mixed", "produce-mixed", "fetch-mixed"}
 
 func w1GenACL(r *rand.Rand, c *simrt.Case, nclients, maxOps int) {
 	cfg := c.Config
